@@ -95,11 +95,15 @@ Fixpoint child_in (es : list (nat * ident * nat)) (nx : nat) (id : ident) : opti
   end.
 Definition child (t : symtab) (nx : nat) (id : ident) : option nat := child_in (edges t) nx id.
 
-(* source of the first (newest) incoming edge *)
+(* source of the LAST (oldest) incoming edge -- the edge the node was inserted with; `export` adds newer incoming edges,
+   which do not change the scope a symbol was defined in (repair 92c8ba5; before, the newest edge was taken) *)
 Fixpoint parent_in (es : list (nat * ident * nat)) (nx : nat) : option nat :=
   match es with
   | [] => None
-  | (a, _, b) :: r => if Nat.eqb b nx then Some a else parent_in r nx
+  | (a, _, b) :: r => match parent_in r nx with
+                      | Some p => Some p
+                      | None => if Nat.eqb b nx then Some a else None
+                      end
   end.
 Definition parent (t : symtab) (nx : nat) : option nat := parent_in (edges t) nx.
 
